@@ -7,6 +7,7 @@ import MimicProps.C13
 #print axioms MimicProps.C13.route_none_iff
 #print axioms MimicProps.C13.library_iff
 #print axioms MimicProps.C13.use_iff
+#print axioms MimicProps.C13.routing_is_code
 #print axioms MimicProps.C13.each_statement_once_in_order
 #print axioms MimicProps.C13.each_statement_once_in_order_on_failure
 #print axioms MimicProps.C13.entry_decisions
